@@ -116,6 +116,7 @@ def accepted_language(src, f, rep):
     not, participation of a group, a content predicate on a group -- and becomes a marked language; the
     accepted strings are those of the non-raising paths"""
     fnode, _inl = normalize.inline_helpers(f)
+    fnode = normalize.unroll_const_loops(fnode, paths.module_consts(f.module, f.cls or ''))      # loops over constant name tables, setattr(self, '<name>', v) as a store
     r, mode, mcall = find_match_expr(src, f, fnode)
     pattern, flags = r['pattern'], r['flags']
     rep.saw_regex('%s:%s' % (r['module'], r['binding']))
@@ -257,6 +258,8 @@ def r2_lossless(rep, src, A):
                 continue
             v = ev[2]
             attr = ev[1][len('self.'):]
+            if attr.startswith('_BaseVersion__'):
+                attr = attr[len('_BaseVersion'):]       # the private name as the class body spells it
             if isinstance(v, ast.Call) and isinstance(v.func, ast.Attribute) and v.func.attr == 'group' \
                     and norm(v.func.value) == M and len(v.args) == 1 and isinstance(v.args[0], ast.Constant):
                 ag[attr] = v.args[0].value
@@ -401,6 +404,7 @@ def r2_lossless(rep, src, A):
 def r3_check_then_commit(rep, src, A):
     f = src.func(SITE + '._set_full_version')
     fnode, _ = normalize.inline_helpers(f)
+    fnode = normalize.unroll_const_loops(fnode, paths.module_consts(f.module, f.cls or ''))
     ps = paths.function_paths(fnode, paths.Folder(paths.module_consts(f.module, f.cls or '')))
     raising = [p_ for p_ in ps if p_.outcome[0] == 'raise']
     storing = [p_ for p_ in ps if any(e[0] == 'store' and e[1].startswith('self.') for e in p_.events)]
